@@ -1,8 +1,9 @@
-//@unit name=framedirty props=C12,C09
+//@unit name=framedirty props=C12,C09,C11
 //@strip-pub
 // Unit `framedirty`: every way of obtaining WRITE access to a cached page marks the frame dirty first
 // (C12: data survives any amount of eviction -- eviction and the checkpoint write back only dirty
-// frames, units cache/pagerio; C09: what a checkpoint must persist).  Read access changes nothing.
+// frames, units cache/pagerio; C09: what a checkpoint must persist; C11: the free-list links
+// dealloc_page writes through a write latch on the list's tail reach the file only if that frame is dirty).  Read access changes nothing.
 //@trusted [env] Arc<AtomicBool> with SeqCst store/load is a sequential boolean cell (DirtyFlag); Arc<RwLock<P>> is an opaque Lock<P>; ReadLatch::new / WriteLatch::new (parking_lot guard acquisition) are abstract
 //@trusted [R8] mark_dirty(&self) and try_from(value: &MemFrame) are checked with `&mut` receivers/parameters: the flag is interior-mutable state
 //@trusted [sub] `match value {` on the (now `&mut`) parameter is `match &*value {`; `format!("..{}", value.id())` is the env message constructor fmt_id(value.id())
@@ -112,7 +113,7 @@ impl WriteLatch<BtreePage> {
 //@ sub /match value \{/ => match &*value {
 //@ sub /format!\("Expected btreepage frame\. Page id: \{\}", value\.id\(\)\)/ => fmt_id(value.id())
 //@ ensures
-//@   [C12,C09:latch.write_btree_marks_dirty] final(value).dirty(),
+//@   [C12,C09,C11:latch.write_btree_marks_dirty] final(value).dirty(),
 //@   [C12:latch.write_btree_same_page] final(value).same_page(old(value)),
 //@   [C12:latch.write_btree_checks_kind] r is Ok <==> (*old(value)) is Btree,
 //@end
@@ -123,7 +124,7 @@ impl WriteLatch<OverflowPage> {
 //@ sub /Result<Self, Self::Error>/ => Result<Self, IoError>
 //@ sub /match value \{/ => match &*value {
 //@ ensures
-//@   [C12,C09:latch.write_overflow_marks_dirty] final(value).dirty(),
+//@   [C12,C09,C11:latch.write_overflow_marks_dirty] final(value).dirty(),
 //@   [C12:latch.write_overflow_same_page] final(value).same_page(old(value)),
 //@   [C12:latch.write_overflow_checks_kind] r is Ok <==> (*old(value)) is Overflow,
 //@end
@@ -134,7 +135,7 @@ impl WriteLatch<PageZero> {
 //@ sub /Result<Self, Self::Error>/ => Result<Self, IoError>
 //@ sub /match value \{/ => match &*value {
 //@ ensures
-//@   [C12,C09:latch.write_zero_marks_dirty] final(value).dirty(),
+//@   [C12,C09,C11:latch.write_zero_marks_dirty] final(value).dirty(),
 //@   [C12:latch.write_zero_same_page] final(value).same_page(old(value)),
 //@   [C12:latch.write_zero_checks_kind] r is Ok <==> (*old(value)) is Zero,
 //@end
